@@ -164,6 +164,18 @@ def handle (fs : List String) : String :=
       " | ".intercalate ((keywordSearchSeq IV.Gen.Matchers.table (keySet rows rkc) rows none kws).map
         (fun r => "ok " ++ ";".intercalate (r.map showRow)))
     | _, _, _ => "bad-op"
+  | "kshist" :: calls =>
+    -- successive calls on plain lists (parent=None): nothing is carried from one call to the next
+    let rec go : List String → Option (List String)
+      | [] => some []
+      | rkc :: rows :: kw :: rest => match decBool rkc, decRows rows, decPairs kw, go rest with
+        | some rkc, some rows, some kw, some tl =>
+          some (("ok " ++ ";".intercalate ((keywordSearch IV.Gen.Matchers.table rows rkc kw).map showRow)) :: tl)
+        | _, _, _, _ => none
+      | _ => none
+    match go calls with
+    | some rs => " | ".intercalate rs
+    | none => "bad-op"
   | ["sort", ks] => match decStrList ks with
     | some ks => showList (sortKeys ks)
     | none => "bad-op"
